@@ -411,17 +411,12 @@ theorem resize_shape :
   ⟨resizeShape_std.1, resizeShape_std.2, kittyCellSizeTerm_eq, sixelCellSizeTerm_eq⟩
 
 open VaxisModel.Gen VaxisModel.Lemmas in
-/-- Upload side (= `Model.ImageTerm.KImg.write / resize`): `writeTo` sends and empties `k.buf` and sets `uploaded` unless it
-    is set, then places; `Resize` clears `uploaded` and appends to `k.buf` without resetting it. -/
-theorem facts_kitty_upload :
-    ImageFlow.kittyWriteFunc = ImageFlowExpected.kittyWriteFunc ∧
-    ImageFlow.kittyResizeUpload = ImageFlowExpected.kittyResizeUpload := by decide +kernel
-
-open VaxisModel.Gen VaxisModel.Lemmas in
-/-- The `Draw` loops of the block images (= `Model.ImageDraw.blockOps`: `y := i / width`, `x := i - y*width`,
-    `SetCell(x, y, …)`). -/
-theorem facts_block_draw :
-    ImageFlow.halfDraw = ImageFlowExpected.halfDraw ∧ ImageFlow.fullDrawLoop = ImageFlowExpected.fullDrawLoop := by decide +kernel
+/-- The format strings of the kitty graphics commands (`a=p` placement with image and placement id, `a=d,d=i` delete of
+    one placement, `f=100` PNG transmission in chunks, `a=d,d=I` image delete) are the ones the harness's parser
+    recognises — data, pinned as text.  (Round 4: the upload closure, the upload side of `Resize` and the block `Draw`
+    loops are no longer text pins: structured, interpreted — `Props.C20Term.kitty_*_body_eq_model`,
+    `block_draw_body_eq_model`.) -/
+theorem facts_kitty_formats : ImageFlow.kittyFormats = ImageFlowExpected.kittyFormats := by decide +kernel
 
 /-- **The placement loops of `render` as regenerated** (statement skeleton, interpreted by `Model.Placements.renderShaped`):
     every statement is there and nothing else is — delete-and-continue on refresh, skip when a same placement follows,
